@@ -21,7 +21,8 @@ EXPLANATION = (
     "user SUB / FUNCTION calls are positioned at the call; (R8) the row table counts a CR LF as one line end "
     "wherever the LF exists (the guard of the look-ahead is not stronger than `in range`; shared with C09.R13); (R9) error_envelope only moves positions; (R10) the conversions of a file or string into the input view hand the text over verbatim - no line-splitting or trimming std call on the way, which would merge or drop line ends before rows are counted."
     " (R11) no and_then mapper that can make a ParserError of its own is applied to a seq3..seq6 parser: an error made up after a whole multi-part construct was consumed is reported behind it."
-    " (R12 = C20.C with clause P) no parser puts the input position back and then returns an error that is not known to be soft: a fatal error is reported where it was found.")
+    " (R12 = C20.C with clause P) no parser puts the input position back and then returns an error that is not known to be soft: a fatal error is reported where it was found."
+    " (R13 = C09.R21) the text of a string literal does not run over the end of its line: an unclosed literal is reported in the line that has it, not in a later, correct one.")
 NOT_DECIDED = ["that row/column numbers are correct for arbitrary layouts and line endings (value-level)"]
 
 
@@ -514,3 +515,5 @@ def run(ctx):
     # is not known to be soft (clause P of the combinator contract, with the rest of it)
     from . import c20
     c20.r_contract(ctx, c20.r_error_laws(ctx, "C11.R12e"), "C11.R12")
+    # an unclosed string literal is reported in the line that has it: the literal's text does not run over the line end
+    c09.r21_string_literal_ends_on_its_line(ctx, "C11.R13")
